@@ -102,8 +102,11 @@ impl Table {
             for i in 0..n {
                 let hx = (splitmix(&mut st) >> 11) as f64 / (1u64 << 53) as f64;
                 let hy = (splitmix(&mut st) >> 11) as f64 / (1u64 << 53) as f64;
+                // tables whose name starts with "PI": integer coordinates centred on the origin (span = scale)
+                let centred_int = name.starts_with("PI");
                 let (x, y) = match design {
                     Some(d) => ((d[i].0 + 0.01 * hx) * scale, (d[i].1 + 0.01 * hy) * scale),
+                    None if centred_int => (((hx - 0.5) * scale).round(), ((hy - 0.5) * scale).round()),
                     None => (hx * scale, hy * scale),
                 };
                 pts.push(if as_f32 {
